@@ -285,7 +285,7 @@ func c01Cases(c *Ctx, emit func(hotpCase)) {
 func init() {
 	register(&Prop{
 		ID: "C01",
-		Rule: "cases = boundary catalogue (secret length/content classes x counter boundaries x digit values x hash values) + seeded random, each run through GenerateHOTP and compared with an independent RFC 4226 model; " +
+		Rule: "cases = boundary catalogue (secret length/content classes x counter boundaries x digit values x hash values) + seeded random, with arbitrary values in the Param fields generation does not use (Skew, Period), each run through GenerateHOTP and compared with an independent RFC 4226 model; " +
 			"distinct_nontrivial counts distinct (key,counter,digits,hash) tuples with supported parameters whose exact code was compared, distinct unsupported (digits,hash) classes that must be refused, and distinct (31-bit value,digits) pairs pushed through the formatting stage via a substituted HMAC output",
 		Run: func(c *Ctx) {
 			b := newBatcher(c, judgeHOTP, 0)
@@ -294,6 +294,7 @@ func init() {
 			// sequential history: consecutive calls whose textual renderings of (secret, counter, digits) collide when
 			// concatenated without separators (a cache keyed that way returns the previous call's code)
 			c01ShiftHistory(c)
+			c01NeighbourHistory(c)
 			// hooked: key and message actually fed to the HMAC
 			if hooks.Available() {
 				checkHMACInputsHOTP(c)
@@ -358,6 +359,28 @@ func c01ShiftHistory(c *Ctx) {
 		x := gen.Pick(rng, []string{"24", "37", "2345", "77", "6652"})
 		emit([]string{base + x, fmt.Sprint(ctr), fmt.Sprint(d)})
 		emit([]string{base, x + fmt.Sprint(ctr), fmt.Sprint(d)})
+	}
+}
+
+// c01NeighbourHistory: on one goroutine, a key, then a key differing from it in one byte (or by one byte of
+// length, or in its second half), then the first again - same counter, digits and hash.
+func c01NeighbourHistory(c *Ctx) {
+	rng := c.RNG.Fork(112)
+	for rep := 0; rep < c.N(1, 8); rep++ {
+		for _, n := range gen.NeighbourKeyLengths {
+			keys := gen.NeighbourKeys(rng, n)
+			ctr := gen.Counter(rng)
+			d, a := uint8(1+rng.Intn(10)), uint8(rng.Intn(3))
+			call := func(k []byte) {
+				judgeHOTP(c, hotpCase{KeyHex: hexs(k), Secret: ref.Base32EncodeNoPad(k), Counter: ctr, Digits: d, Algo: a})
+				c.R.Count("neighbour_key_history_calls", 1)
+			}
+			for _, v := range keys[1:] {
+				call(keys[0])
+				call(v)
+			}
+			call(keys[0])
+		}
 	}
 }
 
